@@ -52,6 +52,21 @@ SALT_HASHERS = {  # name -> (kind, sizes, alphabet or None for raw bytes)
     "django_pbkdf2_sha256": ("chars", [2, 12], None), "scrypt": ("bytes", [1, 2, 16], None), "des_crypt": ("chars", [2], H64),
     "bsdi_crypt": ("chars", [4], H64), "phpass": ("chars", [8], H64), "bcrypt": ("bcrypt", [22], None),
 }
+# every other registered handler whose hash() draws randomness (salt read back through the handler's own parser; the
+# alphabet is the one the handler declares unless given here); "int16": cisco_type7's salt is an integer 0..15
+SALT_ANY = {
+    "bigcrypt": ("chars", [2], H64), "crypt16": ("chars", [2], H64), "ldap_des_crypt": ("chars", [2], H64), "ldap_bsdi_crypt": ("chars", [4], H64),
+    "ldap_md5_crypt": ("chars", [1, 8], H64), "ldap_sha1_crypt": ("chars", [1, 8, 64], H64), "ldap_sha256_crypt": ("chars", [1, 16], H64),
+    "ldap_sha512_crypt": ("chars", [2, 16], H64), "sun_md5_crypt": ("chars", [1, 8, 20], H64), "dlitz_pbkdf2_sha1": ("chars", [1, 16, 40], H64),
+    "django_des_crypt": ("chars", [2], H64), "django_pbkdf2_sha1": ("chars", [1, 12, 30], None), "django_salted_md5": ("chars", [1, 12], None),
+    "oracle11": ("chars", [20], "0123456789ABCDEF"), "atlassian_pbkdf2_sha1": ("bytes", [16], None), "cta_pbkdf2_sha1": ("bytes", [1, 16, 40], None),
+    "fshp": ("bytes", [1, 16, 32], None), "grub_pbkdf2_sha512": ("bytes", [1, 64], None), "ldap_pbkdf2_sha1": ("bytes", [2, 16], None),
+    "ldap_pbkdf2_sha256": ("bytes", [2, 16], None), "ldap_pbkdf2_sha512": ("bytes", [2, 16], None), "ldap_salted_md5": ("bytes", [4, 16], None),
+    "ldap_salted_sha256": ("bytes", [4, 8, 16], None), "ldap_salted_sha512": ("bytes", [4, 8, 16], None), "mssql2000": ("bytes", [4], None),
+    "mssql2005": ("bytes", [4], None), "pbkdf2_sha512": ("bytes", [1, 16], None), "scram": ("bytes", [1, 12, 32], None),
+    "bcrypt_sha256": ("bcrypt", [22], None), "django_bcrypt": ("bcrypt", [22], None), "django_bcrypt_sha256": ("bcrypt", [22], None),
+    "ldap_bcrypt": ("bcrypt", [22], None), "cisco_type7": ("int16", [1], None),
+}
 ALPHABETS = ["01", "abc", "abcde", "0123456789", "0123456789abcdef", H64, "".join(chr(c) for c in range(33, 127)), "xy", "ACGT",
              "abcdefghijklmnopqrstuvwxyz", "éßü漢字"]
 
@@ -61,7 +76,8 @@ ALPHABETS = ["01", "abc", "abcde", "0123456789", "0123456789abcdef", H64, "".joi
 # ---------------------------------------------------------------------------------------------
 def generate(rng, prop, tier):
     api = rng.choices(["getrandbytes", "getrandstr", "salt", "totp_new", "generate_secret", "genword", "genphrase", "django_disabled",
-                       "libpass_salt", "ctx_pin_salt", "generate_password", "libpass_hasher_salt"], [16, 16, 20, 5, 4, 8, 6, 3, 5, 6, 2, 5])[0]
+                       "libpass_salt", "ctx_pin_salt", "generate_password", "libpass_hasher_salt", "salt_any"],
+                      [16, 16, 16, 5, 4, 8, 6, 3, 5, 6, 2, 5, 18])[0]
     mode = rng.choices(["stream", "zeros", "ones", "counter", "single_bit"], [70, 8, 8, 8, 6])[0]
     p = {}
     if api == "getrandbytes":
@@ -75,6 +91,10 @@ def generate(rng, prop, tier):
         h = rng.choice(sorted(SALT_HASHERS))
         p["hasher"] = h
         p["size"] = rng.choice(SALT_HASHERS[h][1])
+    elif api == "salt_any":
+        h = rng.choice(sorted(SALT_ANY))
+        p["hasher"] = h
+        p["size"] = rng.choice(SALT_ANY[h][1])
     elif api == "totp_new":
         p["size"] = rng.choice([10, 16, 20, 20, 32, 64])
         p["alg"] = "sha1" if p["size"] <= 20 else "sha256" if p["size"] <= 32 else "sha512"
@@ -101,7 +121,7 @@ def generate(rng, prop, tier):
         p["hasher"] = rng.choice(["md5_crypt", "sha256_crypt", "pbkdf2_sha256", "bcrypt", "ldap_salted_sha1"])
     elif api == "generate_password":
         p["size"] = rng.choice([1, 4, 10, 20])
-    reps = rng.choice([50, 200, 600]) if api in ("salt", "totp_new", "genphrase", "django_disabled", "libpass_hasher_salt") else rng.choice([200, 1000, 3000])
+    reps = rng.choice([50, 200, 600]) if api in ("salt", "salt_any", "totp_new", "genphrase", "django_disabled", "libpass_hasher_salt") else rng.choice([200, 1000, 3000])
     return {"cfg": {"api": api, "params": p, "mode": mode, "reps": reps, "seed": rng.getrandbits(32),
                     "exhaustive": rng.random() < (0.5 if tier == "thorough" else 0.15), "flips": rng.randint(4, 24)}, "ops": []}
 
@@ -166,6 +186,39 @@ class _Gen:
                     return s[7:29]
 
                 self.alphabet = list("./ABCDEFGHIJKLMNOPQRSTUVWXYZabcdefghijklmnopqrstuvwxyz0123456789")
+            self.call = call
+        elif a == "salt_any":
+            h = p["hasher"]
+            kind, sizes, alpha = SALT_ANY[h]
+            H = getattr(passlib.hash, h)
+            kw = {}
+            if MIN_COST.get(h) is not None:
+                kw["rounds"] = MIN_COST[h]
+            elif getattr(H, "min_rounds", None) is not None:
+                kw["rounds"] = max(H.min_rounds, 1)
+            if len(sizes) > 1:
+                kw["salt_size"] = p["size"]
+            Hc = H.using(**kw) if kw else H
+            ckw = {k: "u" for k in getattr(H, "context_kwds", ()) if k in ("user", "realm")}
+            self.n = p["size"]
+            self.kind = kind
+            self.hname = h
+            parser = getattr(H, "wrapped", H)
+            if kind == "chars":
+                self.alphabet = list(alpha if alpha else H.salt_chars)
+            elif kind == "bcrypt":
+                self.alphabet = list("./ABCDEFGHIJKLMNOPQRSTUVWXYZabcdefghijklmnopqrstuvwxyz0123456789")
+            elif kind == "int16":
+                self.alphabet = list(range(16))
+
+            def call():
+                s = Hc.hash("pw", **ckw)
+                if kind == "int16":
+                    return [int(s[:2])]  # the salt is the first two decimal digits of a type-7 string
+                if parser is not H:
+                    s = H._unwrap_hash(s)
+                return parser.from_string(s).salt
+
             self.call = call
         elif a == "totp_new":
             from passlib.totp import TOTP
@@ -257,7 +310,7 @@ class _Gen:
 
     def space(self):
         """size of the declared value space"""
-        if self.api == "salt" and self.kind == "bcrypt":
+        if getattr(self, "kind", "") == "bcrypt":
             return 2 ** 128
         if self.alphabet is None:
             return 256 ** self.n
@@ -317,7 +370,7 @@ def _check_shape(ctx, g, v, mode):
         alpha = set(g.alphabet)
         bad = [s for s in syms if s not in alpha]
         ctx.check(not bad, "C06", "symbol-outside-alphabet", lambda: f"{g.api} {g.p}: {v!r} contains {bad[:3]} (source {mode})", api=g.api)
-    if g.api == "salt" and g.kind == "bcrypt":
+    if getattr(g, "kind", "") == "bcrypt":
         ctx.check(syms[-1] in ".Oeu", "C06", "symbol-outside-alphabet", f"bcrypt salt {v!r}: last character has padding bits set", api=g.api)
 
 
@@ -414,7 +467,7 @@ def _run(cfg, ctx, src, g):
     # ---- small spaces: ALL answers of the source (exhaustive enumeration of this sub-case): every declared value must be
     #      produced by the same number of answers, whether or not draw space and value space have the same size -------------
     v0, rec0 = _one(ctx, src, g, "reference for enumeration")
-    slow = api in ("salt", "totp_new", "genphrase", "django_disabled", "libpass_hasher_salt")
+    slow = api in ("salt", "salt_any", "totp_new", "genphrase", "django_disabled", "libpass_hasher_salt")
     if len(rec0) == 1 and S <= 2 ** 16:
         kind, r, _ = rec0[0]
         total = (1 << r) if kind == "getrandbits" else r
@@ -460,7 +513,7 @@ def _statistics(ctx, g, values):
     if n_vals < 40 or g.n is None or g.n == 0:
         return
     L = len(g.alphabet) if g.alphabet else 256
-    if g.api == "salt" and getattr(g, "kind", "") == "bcrypt":
+    if getattr(g, "kind", "") == "bcrypt":
         positions = range(g.n - 1)
     else:
         positions = range(g.n)
